@@ -581,9 +581,9 @@ class AndNotMatcher(BiMatcher):
         self._find_first()
 
     def _find_first(self):
-        if (self.a.is_active()
-            and self.b.is_active()
-            and self.a.id() == self.b.id()):
+        # _find_next() first catches the negative matcher up with the positive
+        # one, so it must also run when the negative list starts earlier
+        if self.a.is_active() and self.b.is_active():
             self._find_next()
 
     def is_active(self):
